@@ -162,6 +162,14 @@ def cascade_case(ctx, n, req, k, verdicts=None):
             i, e, inst = a_.state_repr
             if b_.state_repr[2] != r['seen'] - (e - i):
                 return f'after accepting ({i + 1},{e}) the cursor holds {b_.state_repr[2]} instances; the tool had reported {r["seen"]}, minus the chunk {e - i}'
+    if verdicts is None:
+        # the run is over: no single remaining instance may still be removable (it goes together with the k behind it)
+        left = present(final)
+        for pos, j in enumerate(left):
+            rest = set(left) - set(left[pos:pos + 1 + k])
+            if j not in reqs and reqs <= rest:
+                return (f'the run ended on instances {left}; removing instance {j} (with the {k} behind it) still keeps the required {sorted(reqs)}: '
+                        f'it was never offered alone after the last accepted removal')
     return None
 
 
